@@ -1,1 +1,23 @@
-From PM Require Import Model.Step.
+(* C01 — a step applied to a valid document yields a valid document or is refused.
+   The replace family (ReplaceStep, ReplaceAroundStep, AddMarkStep, RemoveMarkStep and the node-level
+   steps) all go through Node.replace (Model.Step.from_replace -> Model.Tree.node_replace).  The
+   theorem below is about that function: whatever it returns is valid, for every document, range and
+   slice, provided the sides of the slice consist of valid nodes.  The step-level statement for the other
+   clauses of C01 (refusal instead of exception, closed wrappers of replace-around steps) is evaluated
+   per case by Corr.C01 on the implementation's observations. *)
+From Coq Require Import List.
+From PM Require Import Model.Data Model.Mark Model.Tree Proofs.ReplaceValid.
+Import ListNotations.
+
+(* [check] is the model of Node.check; C07_check_iff (Properties/C07.v) relates it to the token-level
+   definition of validity. *)
+Theorem C01_node_replace_valid_partial : forall s doc from to sl d',
+  check s doc = true ->
+  node_replace s doc from to sl = Ok d' ->
+  (sl_open_start sl = 0 -> sl_open_end sl = 0 -> forall x, In x (sl_content sl) -> check s x = true) ->
+  (forall rf rt st en, resolve s doc from = Ok rf -> resolve s doc to = Ok rt -> prepare_slice s sl rf = Ok (st, en) ->
+     LastOK s st /\ LastOK s en /\ PathMC s en /\
+     forall d, d <= rp_depth rf - sl_open_start sl -> Sides s rf rt st en d) ->
+  check s d' = true.
+Proof. exact node_replace_valid. Qed.
+Print Assumptions C01_node_replace_valid_partial.
